@@ -116,17 +116,20 @@ Definition grouping_ok (es : list entity) (cs : list component) : bool :=
   | None => false
   end.
 
+(* errc: 0 when the real compiler accepted, else the class of its error (Entity.err_class) *)
 Inductive c17case :=
-| EC (es : list entity) (ok : bool) (lines : list line) (client_ok : bool) (clines : list line).
+| EC (es : list entity) (ok : bool) (errc : N) (lines : list line) (client_ok : bool) (clines : list line).
 
+(* the model accepts exactly when the real compiler does (both directions), with the same
+   descriptors and client view when it does and the same error class when it does not *)
 Definition c17_check (c : c17case) : bool :=
   match c with
-  | EC es ok lines cok clines =>
-      match compile_all es with
+  | EC es ok errc lines cok clines =>
+      match compile_file es with
       | Ok cs => ok && list_eqb line_eqb (flatten (file_pkg_of es) cs) lines
                  && cok && list_eqb line_eqb (flat_map (fun e => client_lines (client_view e)) es) clines
                  && grouping_ok es cs
-      | Err _ => negb ok
+      | Err s => negb ok && (err_class s =? errc)
       | _ => false
       end
   end.
@@ -141,8 +144,8 @@ Fixpoint first_diff (i : N) (a b : list line) : option (N * option line * option
   end.
 Definition c17_diff (c : c17case) :=
   match c with
-  | EC es ok lines cok clines =>
-      match compile_all es with
+  | EC es ok _ lines cok clines =>
+      match compile_file es with
       | Ok cs => match first_diff 0 (flatten (file_pkg_of es) cs) lines with
                  | Some d => Some d
                  | None => first_diff 1000 (flat_map (fun e => client_lines (client_view e)) es) clines
